@@ -13,6 +13,7 @@ RULE = ("approximate_{pubo,qubo,puso,quso}_extrema on raw dicts (unsorted / repe
         "models, and (flagged class) stale models. Oracle: exact extrema from the reference truth table. "
         "Non-trivial = model with >= 2 variables and >= 2 non-constant terms; distinct = digest of (function, type, terms)"
         ' Also: the documented keyword spelling of the argument, a refused call (a coefficient that is no number, put right afterwards) before the valid one, long raw spellings of monomials, full-matrix style dicts with diagonal keys and both orientations, models scaled by 2^-70, exact-arithmetic coefficients (ints above 2^53, thirds, sevenths), single-scale models with two-digit equal probabilities, plain dicts whose variable-carrying terms cancel under two spellings, a second look after in-place edits.')
+RULE += " Rounds 9-10: named variable objects scaled / divided / shifted / grown in place."
 TIERS = {"quick": {"shards": 8, "cases": 6000}, "thorough": {"shards": 16, "cases": 50000}}
 FLOOR_BASE = {"quick": 500, "thorough": 20000}    # case counts the floors below were calibrated for; the launcher scales them
 FN = {"approximate_pubo_extrema": ("bool", False), "approximate_qubo_extrema": ("bool", True),
